@@ -41,6 +41,27 @@ def oracle(enc, dec, bs):
     return None
 
 
+def reuse_oracle(mod, bs):
+    """the way callers use the functions: ONE buffer transformed in place and transformed back, then the same content again in a
+    fresh buffer (a result must not depend on what earlier calls left behind)"""
+    def one():
+        b = bytearray(bs)
+        mod.encode_string(b)
+        e = list(b)
+        mod.decode_string(b)
+        return e, list(b)
+    r1 = pyexc(one)
+    r2 = pyexc(one)
+    if r1[0] != 'ok' or r2[0] != 'ok':
+        return f"in-place encode/decode of {bs} raised {r1 if r1[0] != 'ok' else r2}"
+    if r1[1] != r2[1]:
+        return f"encode_string/decode_string of the same content {bs} gave {r1[1]} the first time and {r2[1]} the second time"
+    back = r1[1][1]
+    if any(a != b and a != 0x7E for a, b in zip(bs, back)) or len(back) != len(bs):
+        return f"decode_string(encode_string({bs})) in one buffer = {back}"
+    return None
+
+
 def inputs(C, tier):
     rng = C.rng
     out = []
@@ -76,6 +97,11 @@ def run(tier):
         if w:
             C.violation(w, dict(unit='string_encoding_utils', input=dict(bytes=bs)))
             break
+    for bs in ins[::3]:
+        w = reuse_oracle(mod, bs)
+        if w:
+            C.violation(w, dict(unit='string_encoding_utils', input=dict(bytes=bs, reuse=True)))
+            break
     C.stream('oracle', len(ins), len([b for b in ins if any(0x22 <= x <= 0x7E for x in b)]), sample=dict(bytes=ins[len(ins) // 2]))
     e_cases = [(bs, pyexc(enc, bs)) for bs in ins]
     d_cases = [(bs, pyexc(dec, bs)) for bs in ins]
@@ -108,3 +134,16 @@ def run(tier):
                         if w:
                             return C.violation(w, dict(unit='string_encoding_utils', input=dict(bytes=s)))
     return C.finish(search=search)
+
+
+def replay(path):
+    import json
+    r = json.load(open(path))
+    inp = r.get('input')
+    if not inp:
+        return replay_broken(r, 'C08')
+    s = Scratch()
+    mod = load_leaf(s.src, 'eolib.data.string_encoding_utils')
+    w = reuse_oracle(mod, inp['bytes']) if inp.get('reuse') else oracle(inplace(mod.encode_string), inplace(mod.decode_string), inp['bytes'])
+    print("replay:", w or "property holds on this input")
+    return 1 if w else 0
